@@ -9,8 +9,8 @@
    (vplib/props/c12.py), not by these theorems; panic sites outside the modelled functions are counted, not proved. *)
 From Coq Require Import List ZArith NArith Bool Arith.
 From PV Require Import Lib.ListX Model.Checked Model.RangeArith Model.WidthArith Model.ReviewedSites Model.Span
-  Model.CheckedNest Model.SitesBaseline Model.Closure Model.ParseRetry Model.Rq Model.RqWf Model.RqAgg
-  Proofs.ClosureProofs Proofs.ParseRetryProofs Proofs.RqWfProofs Gen.GenUnpack
+  Model.CheckedNest Model.SitesBaseline Model.Closure Model.ParseRetry Model.FmtLayout Model.Rq Model.RqWf Model.RqAgg
+  Proofs.ClosureProofs Proofs.ParseRetryProofs Proofs.FmtLayoutProofs Proofs.RqWfProofs Gen.GenUnpack
   Proofs.CheckedProofs Proofs.RangeArithProofs Proofs.WidthArithProofs Proofs.ReviewedSitesProofs Proofs.SpanProofs
   Proofs.CheckedNestProofs Gen.GenSites.
 Import ListNotations.
@@ -291,6 +291,32 @@ Theorem c12_unpack_exact : forall (arity : str -> option nat) fuel e,
 Proof. exact well_declared_no_bad_cast. Qed.
 Print Assumptions c12_unpack_exact.
 
+(* ------------------------------------------------------------------ the layout protocol of the formatter *)
+(* Finding C12-H2 (formatting time exponential in the nesting depth) was fixed by c8b3817 with two flags: single_line (set
+   by SeparatedExprs::write_inline: a nested list that does not fit gives up instead of laying itself out over several
+   lines) and no_line_break (set by the first, same-line attempt of a parenthesised expression: nested parenthesised
+   expressions may not break the line themselves).  Model/FmtLayout.v mirrors that protocol, with the width arithmetic
+   of Model/WidthArith.v, for  e ::= identifier | {e, ..} | e + e  in `let v = e`, and counts the invocations of
+   <pr::Expr as WriteSource>::write (the number the hook verif:fmt-calls reports; text and count are compared with the
+   implementation on every run).  The count is polynomial: size^1 once both flags are set (a single pass), one power
+   more for each flag that is still clear. *)
+Theorem c12_fmt_calls_polynomial : forall e o, snd (we e o) <= size e ^ ex o.
+Proof. exact we_calls_le. Qed.
+Print Assumptions c12_fmt_calls_polynomial.
+
+Theorem c12_fmt_calls_single_pass : forall e o, sl o = true -> nlb o = true -> snd (we e o) <= size e.
+Proof. exact we_calls_single_pass. Qed.
+Print Assumptions c12_fmt_calls_single_pass.
+
+Theorem c12_fmt_calls_cubic : forall e o, snd (we e o) <= size e ^ 3.
+Proof. exact we_calls_cubic. Qed.
+Print Assumptions c12_fmt_calls_cubic.
+
+(* pl_to_prql on `let v = e`, the (at most 28) widening retries of write_or_expand included *)
+Theorem c12_fmt_format_let_calls : forall e, snd (format_let e) <= 28 * size e ^ 3.
+Proof. exact format_let_calls. Qed.
+Print Assumptions c12_fmt_format_let_calls.
+
 (* ------------------------------------------------------------------ parse time on nested named arguments *)
 (* Full statement (FALSE, finding C12-H3): the number of nested_expr invocations is linear in the input length.
    Model/ParseRetry.v is an ordered-choice parser without memoisation (chumsky's semantics) for the fragment
@@ -409,3 +435,13 @@ Example c12_ex_n18_precondition :
                         (TAggregate [1] [1]); (TSelect [1])]) [RSingle (Some [110])]))%N in
   rq_wf q = true /\ rq_agg_ok q = false /\ staged_rq_ok q = false.
 Proof. repeat split; vm_compute; reflexivity. Qed.
+(* the model formats: `let v = a + (a + a)` on one line with 5 invocations; a right-nested chain of 12 wide operands needs
+   line breaks and 173 invocations for 25 nodes (more than linear, far below 25^3) *)
+Example c12_ex_fmt_layout :
+  format_let (Bin (Id 1) (Bin (Id 1) (Id 1))) =
+    (Some [108; 101; 116; 32; 118; 32; 61; 32; 97; 32; 43; 32; 40; 97; 32; 43; 32; 97; 41; 10]%N, 5).
+Proof. vm_compute. reflexivity. Qed.
+Example c12_ex_fmt_layout_deep :
+  let e := Nat.iter 12 (fun t => Bin (Id 9) t) (Id 9) in
+  size e = 25 /\ snd (format_let e) = 173 /\ existsb (N.eqb 10%N) (removelast (match fst (format_let e) with Some t => t | None => [] end)) = true.
+Proof. vm_compute. auto. Qed.
